@@ -232,18 +232,19 @@ def fam_verdicts(ctx, rng, coarse=False):
 
 def fam_sequence(ctx, rng):
     """Several sites assessed one after the other by one script that keeps ONE search-range object (a list, a tuple
-    or an array, open-ended on at least one side): each site's verdicts are those of that site alone, and the
+    or an array, closed or open-ended; half of the scripts look at each whole curve first): each site's verdicts are those of that site alone, and the
     range object is the caller's and keeps its value."""
     from hvsrpy import sesame
     k = int(rng.integers(2, 5))
     cases = [gen_case(rng) for _ in range(k)]
     f0s = [c[0]["f0"] for c in cases]
-    form = str(rng.choice(["open-below", "open-above", "open-both"]))
+    form = str(rng.choice(["open-below", "open-above", "open-both", "closed", "closed"]))
+    look_first = bool(rng.random() < 0.5)      # the script first assesses each site's WHOLE curve, then within the range
     lo = None if form in ("open-below", "open-both") else float(min(f0s) / rng.uniform(1.5, 8))
     hi = None if form in ("open-above", "open-both") else float(max(f0s) * rng.uniform(1.5, 8))
     container = str(rng.choice(["list", "list", "tuple", "object-array"]))
     shared = [lo, hi] if container == "list" else (lo, hi) if container == "tuple" else np.array([lo, hi], dtype=object)
-    ctx.describe(sites=k, f0s=f0s, search_range=[lo, hi], container=container,
+    ctx.describe(sites=k, f0s=f0s, search_range=[lo, hi], container=container, whole_curve_first=look_first,
                  grids=[[float(c[1][0]), float(c[1][-1]), int(c[1].size)] for c in cases])
     judged = 0
     for i, (meta, f, mean, std, _) in enumerate(cases):
@@ -254,6 +255,13 @@ def fam_sequence(ctx, rng):
         info = dict(f0=meta["f0"], band=meta["band"], edge=meta["edge"], search_range=[lo, hi], lw=meta["lw"], nw=meta["nw"],
                     fn_std=meta["fn_std"], ratio=meta["ratio"], site_number=i, container=container,
                     grid=[float(f[0]), float(f[-1])], mechanism="sites-assessed-with-one-range-object")
+        if look_first:
+            try:
+                quiet(sesame.reliability, meta["lw"], meta["nw"], f, mean, std, search_range_in_hz=(None, None), verbose=0)
+                quiet(sesame.clarity, f, mean, std, meta["fn_std"], search_range_in_hz=(None, None), verbose=0)
+                ctx.count("whole_curve_calls_before_the_ranged_call")
+            except Exception:
+                pass                    # a whole curve without a peak: refused, judged by the other families
         try:
             rel = quiet(sesame.reliability, meta["lw"], meta["nw"], f, mean, std, search_range_in_hz=shared, verbose=0)
             cla = quiet(sesame.clarity, f, mean, std, meta["fn_std"], search_range_in_hz=shared, verbose=0)
